@@ -625,6 +625,8 @@ pub trait DynCore {
     /// one `generate()` into a fresh default Results buffer; returns the block as u64 words
     fn generate(&mut self) -> Vec<u64>;
     fn boxed_clone(&self) -> Box<dyn DynCore>;
+    /// `Clone::clone_from(self, src)`; false when `src` is another core type
+    fn clone_from_dyn(&mut self, src: &dyn DynCore) -> bool;
     fn eq_dyn(&self, other: &dyn DynCore) -> bool;
     fn snapshot(&self, fmt: SnapFmt) -> Option<Vec<u8>>;
     fn debug(&self) -> (String, String);
@@ -708,6 +710,15 @@ impl DynCore for CHc128 {
     fn boxed_clone(&self) -> Box<dyn DynCore> {
         Box::new(CHc128(self.0.clone()))
     }
+    fn clone_from_dyn(&mut self, src: &dyn DynCore) -> bool {
+        match src.as_any().downcast_ref::<CHc128>() {
+            Some(o) => {
+                self.0.clone_from(&o.0);
+                true
+            }
+            None => false,
+        }
+    }
     fn eq_dyn(&self, other: &dyn DynCore) -> bool {
         self.0 == other.as_any().downcast_ref::<CHc128>().expect("core kind").0
     }
@@ -737,6 +748,15 @@ impl DynCore for CIsaac {
     fn boxed_clone(&self) -> Box<dyn DynCore> {
         Box::new(CIsaac(self.0.clone()))
     }
+    fn clone_from_dyn(&mut self, src: &dyn DynCore) -> bool {
+        match src.as_any().downcast_ref::<CIsaac>() {
+            Some(o) => {
+                self.0.clone_from(&o.0);
+                true
+            }
+            None => false,
+        }
+    }
     fn eq_dyn(&self, other: &dyn DynCore) -> bool {
         self.0 == other.as_any().downcast_ref::<CIsaac>().expect("core kind").0
     }
@@ -765,6 +785,15 @@ impl DynCore for CIsaac64 {
     }
     fn boxed_clone(&self) -> Box<dyn DynCore> {
         Box::new(CIsaac64(self.0.clone()))
+    }
+    fn clone_from_dyn(&mut self, src: &dyn DynCore) -> bool {
+        match src.as_any().downcast_ref::<CIsaac64>() {
+            Some(o) => {
+                self.0.clone_from(&o.0);
+                true
+            }
+            None => false,
+        }
     }
     fn eq_dyn(&self, other: &dyn DynCore) -> bool {
         self.0 == other.as_any().downcast_ref::<CIsaac64>().expect("core kind").0
